@@ -6,24 +6,26 @@ set -u
 SRC="$1"; NAME="$2"; shift 2
 export GOFLAGS=-mod=mod GOPROXY=off GOSUMDB=off GOTOOLCHAIN=local
 W=$(mktemp -d /tmp/verif-seed-XXXXXX)
+UT=$(mktemp /tmp/verif-seed-ut-XXXXXX)
+EV=$(mktemp -d /tmp/verif-seed-ev-XXXXXX)
 git -C /repo worktree add -q --detach "$W" HEAD
-cleanup() { git -C /repo worktree remove --force "$W" 2>/dev/null; }
+cleanup() { git -C /repo worktree remove --force "$W" 2>/dev/null; rm -rf "$UT" "$EV"; }
 trap cleanup EXIT
 cat "$SRC/.seed/demo_cmd.txt" | head -20
 echo "---- files in .seed:"; ls "$SRC/.seed"
 # place demo files where the agent had them (relative paths of untracked files in its worktree)
-(cd "$SRC" && git status --porcelain | grep '^??' | awk '{print $2}' | grep -v '^.seed' ) > /tmp/seed-untracked.txt
-while read -r f; do mkdir -p "$W/$(dirname "$f")"; cp -r "$SRC/$f" "$W/$f"; done < /tmp/seed-untracked.txt
+(cd "$SRC" && git status --porcelain | grep '^??' | awk '{print $2}' | grep -v '^.seed' ) > "$UT"
+while read -r f; do mkdir -p "$W/$(dirname "$f")"; cp -r "$SRC/$f" "$W/$f"; done < "$UT"
 # demo files kept only under .seed/: place them where demo_cmd.txt / README.txt say
 for f in "$SRC"/.seed/*.go; do
   [ -f "$f" ] || continue
   b=$(basename "$f")
-  if ! grep -q "$b" /tmp/seed-untracked.txt; then
+  if ! grep -q "$b" "$UT"; then
     tgt=$(cat "$SRC/.seed/demo_cmd.txt" "$SRC/.seed/README.txt" 2>/dev/null | grep -o "[A-Za-z0-9_./-]*/$b" | grep -v "^\.seed" | grep -v "/\.seed/" | sed "s#^$SRC/##; s#^/tmp/seed-[A-Z0-9]*/##" | grep -v "^/" | head -1)
-    if [ -n "$tgt" ]; then mkdir -p "$W/$(dirname "$tgt")"; cp "$f" "$W/$tgt"; echo "$tgt" >> /tmp/seed-untracked.txt; fi
+    if [ -n "$tgt" ]; then mkdir -p "$W/$(dirname "$tgt")"; cp "$f" "$W/$tgt"; echo "$tgt" >> "$UT"; fi
   fi
 done
-echo "---- demo files: $(cat /tmp/seed-untracked.txt | tr '\n' ' ')"
+echo "---- demo files: $(cat "$UT" | tr '\n' ' ')"
 DEMO=$(grep -o "go test[^'\"]*\(-run [^ ]* \)\?.*" "$SRC/.seed/demo_cmd.txt" | head -1 | sed 's/ *;.*$//; s/ *&&.*$//')
 echo "---- demo command: $DEMO"
 echo "==== original code: demo must pass"
@@ -35,7 +37,7 @@ echo "==== with change: demo must fail"
 (cd "$W" && eval "$DEMO" 2>&1 | tail -4)
 echo "==== checks"
 for p in "$@"; do
-  VERIF_REPO="$W" VERIF_EVIDENCE_DIR=/tmp/verif-ev-seed VERIF_REPLAY_DIR=/tmp/verif-ev-seed /verif/vcheck "$p" 2>&1 | grep -v "^  " | cut -c1-300 | tail -6
+  VERIF_REPO="$W" VERIF_EVIDENCE_DIR="$EV" VERIF_REPLAY_DIR="$EV" /verif/vcheck "$p" 2>&1 | grep -v "^  " | cut -c1-300 | tail -6
   echo "rc($p)=${PIPESTATUS[0]}"
 done
-rm -rf /tmp/verif-ev-seed
+rm -rf "$EV"
